@@ -223,6 +223,16 @@ def known_findings(pid):
 def write_evidence(pid, tier, coverage, assumptions, wall_s, violations, level="proof"):
     edir = os.path.join(VERIF, "evidence") if not RTAG else os.path.join(WORK, "evidence" + RTAG)
     os.makedirs(edir, exist_ok=True)
+    if isinstance(assumptions, dict):
+        flat = []
+        for k_, v_ in assumptions.items():
+            for x_ in (v_ if isinstance(v_, list) else [v_]):
+                flat.append("%s: %s" % (k_, x_))
+        assumptions = flat
+    assumptions = [str(a) for a in (assumptions or [])]
+    if not isinstance(violations, int):
+        coverage = dict(coverage, violation_details=violations)
+        violations = len(violations) if hasattr(violations, "__len__") else int(bool(violations))
     ev = {"property_id": pid, "tier": tier, "seed": seed(), "level": level, "coverage": coverage,
           "assumptions": assumptions, "wall_s": round(wall_s, 2), "violations": violations}
     tmp = os.path.join(edir, pid + ".json.tmp")
